@@ -126,6 +126,10 @@ def transform_weather(df, tr):
         df.index = pd.DatetimeIndex(df.Date.values) + pd.Timedelta(hours=12)
     elif ix == "datetime_other":
         df.index = pd.date_range("1950-01-01", periods=len(df), freq="D")
+    elif ix == "year":                       # NON-UNIQUE labels: the calendar year of each record / one constant label
+        df.index = [int(d.year) for d in df.Date]
+    elif ix == "const":
+        df.index = [0] * len(df)
     elif ix == "labels":
         df.index = ["r%05d" % ((i * 7919) % 100003) for i in range(len(df))]
     elif ix == "range":
@@ -229,6 +233,9 @@ def exec_job(job):
                     if pool[i]._clock_struct.model_is_finished if inited[i] else False:
                         continue
                     pool[i].run_model(num_steps=int(op["k"]), initialize_model=not inited[i])
+                    inited[i] = True
+                elif op["op"] == "rerun":
+                    pool[i].run_model(till_termination=True)          # the same instance again (re-initialises)
                     inited[i] = True
                 elif op["op"] == "finish":
                     if inited[i] and pool[i]._clock_struct.model_is_finished:
